@@ -29,7 +29,7 @@ def run(v, workdir, replay):
     v.rule = ("case = one byte string given to one decoder entry point; distinct non-trivial = distinct (entry point, mutation operator family, "
               "outcome) cells; truncation is exhaustive over every offset of every valid encoding <= 2 KiB")
     v.assumptions = ["valid encodings come from the crate's own builders (ConfigureSequencerBlock, TransactionBody::sign, split_for_celestia)",
-                     "CheckTx / gRPC / Celestia-fetch wrappers around these decoders are exercised by the other harnesses (ChainSim CheckTx, C09 pipeline)"]
+                     "CheckTx is driven in-crate (app::verif::checktx_fuzz: ChainSim transactions mutated whole and as re-signed bodies against a live state); Celestia blob fetch wrappers are exercised by the C09 pipeline; gRPC response conversions are the public try_from_raw entry points"]
     exe = _build(workdir, False)
     shards = 16
     rounds = 400 if thorough else 40
@@ -41,6 +41,11 @@ def run(v, workdir, replay):
     for r in res:
         if r["rc"] != 0:
             raise runner.Inconclusive("vh-wire shard %d exited with %s (see %s)" % (r["shard"], r["rc"], r["stdout"]))
+    # in-crate part: mutated / re-signed transactions at the sequencer's CheckTx boundary on a live chain state
+    sexe = runner.build_crate_tests("astria-sequencer", workdir)
+    runner.run_entry(sexe, "app::verif::checktx_fuzz", workdir, v, nshards=16, timeout=2400,
+                     env={"VERIF_HISTORIES": "6" if thorough else "1", "VERIF_CAP_WHOLE": "400" if thorough else "250",
+                          "VERIF_CAP_BODY": "900" if thorough else "500"})
     if thorough:
         rexe = _build(workdir, True)
         out = os.path.join(workdir, "events-wire-valgrind.jsonl")
@@ -63,16 +68,25 @@ def run(v, workdir, replay):
             v.saw("entry:" + e["entry"], e["n"])
             if e["outcome"] == "ok":
                 v.saw("accepted", e["n"])
+                if e["entry"].startswith("check_tx") and e["operator"] != "valid":
+                    v.saw("checktx_accepted_mutants", e["n"])
             v.saw("op:" + e["operator"].split(":")[-1], e["n"])
         elif k == "proof_reverification":
             v.saw("proofs_reverified_on_accepted_blocks", e["proofs_reverified"])
             v.saw("obs_library_accepts_where_rfc9162_rejects", e["library_accepts_where_rfc9162_rejects"])
+        elif k == "checktx_corpus":
+            for kind, n in e["action_kinds"].items():
+                v.saw("checktx_corpus_kind:" + kind, n)
+            for m in e.get("internal_error_samples", []):
+                v.extra.setdefault("obs_checktx_internal_error_samples", [])
+                if len(v.extra["obs_checktx_internal_error_samples"]) < 6:
+                    v.extra["obs_checktx_internal_error_samples"].append(m[:200])
         elif k == "decode_case":
             oc = e["outcome"]
             wit = {"entry": e["entry"], "operator": e["operator"], "outcome": oc, "input_hex": e["input"][:4000], "input_len": len(e["input"]) // 2}
             if e["operator"] == "valid":
                 raise runner.Inconclusive("a valid %s encoding built by the harness is not accepted (%s): corpus broken" % (e["entry"], oc))
-            if oc.startswith("panic") and ("vh-wire/src" in oc or "harness/common" in oc):
+            if oc.startswith("panic") and ("vh-wire/src" in oc or "harness/common" in oc or "/verif/harness" in oc):
                 raise runner.Inconclusive("the harness itself panicked (%s): not a statement about astria" % oc[:200])
             if oc.startswith("panic"):
                 m = _LOC.search(oc)
@@ -82,6 +96,9 @@ def run(v, workdir, replay):
                 v.violate("C17/accepted-value-inconsistent/%s/%s" % (e["entry"], oc), "%s accepted a value that is not self-consistent: %s" % (e["entry"], oc), wit)
     v.need("inputs", 500000 if not thorough else 5000000)
     v.need("accepted", 5000)
+    v.need("entry:check_tx", 50000)
+    v.need("entry:check_tx_resigned", 50000)
+    v.need("checktx_accepted_mutants", 200)
     v.need("proofs_reverified_on_accepted_blocks", 2000)
     for en in ("transaction", "transaction_resigned", "sequencer_block", "filtered_block", "submitted_metadata", "submitted_rollup_data", "metadata_blob", "rollup_blob"):
         v.need("entry:" + en, 2000)
